@@ -9,6 +9,7 @@ pub mod c06;
 pub mod c07;
 pub mod c08;
 pub mod c09;
+pub mod c10;
 pub mod c11;
 pub mod c12;
 pub mod c13;
@@ -41,6 +42,7 @@ pub fn registry() -> Vec<(&'static str, CheckFn)> {
         ("C07", c07::run as CheckFn),
         ("C08", c08::run as CheckFn),
         ("C09", c09::run as CheckFn),
+        ("C10", c10::run as CheckFn),
         ("C11", c11::run as CheckFn),
         ("C12", c12::run as CheckFn),
         ("C13", c13::run as CheckFn),
